@@ -184,7 +184,7 @@ func (e *Engine) reflectIntrinsic(name string, fn *ssa.Function, a []Val) (Val, 
 			e.unsupported("reflect.NewAt with %T", a[1])
 		}
 		if p.c != nil {
-			c := e.resolve(p, "reflect.NewAt")
+			c := e.viewAs(e.resolve(p, "reflect.NewAt"), t)
 			if !shapeCompatible(c.typ, t) && !(isAggType(c.typ) == isAggType(t) && e.sizes.Sizeof(c.typ) == e.sizes.Sizeof(t)) {
 				e.goPanic("invalid reinterpretation: reflect.NewAt(%v) over memory of type %v", t, c.typ)
 			}
@@ -446,6 +446,14 @@ func (e *Engine) reflectIntrinsic(name string, fn *ssa.Function, a []Val) (Val, 
 				return e.K(64, 0), true
 			}
 			return Ptr{c: v.arr.kids[v.off], raw: m == "Pointer"}, true
+		case *MapObj:
+			// the pointer a map value consists of: modelled as a pointer to a box that
+			// holds the map object; a load of map type through it yields the map again
+			if v == nil {
+				return e.K(64, 0), true
+			}
+			box := &Cell{typ: r.t, val: v, epoch: e.epoch}
+			return Ptr{c: box, raw: m == "Pointer"}, true
 		}
 	case "MapKeys":
 		mo := e.rvGet(r).(*MapObj)
